@@ -5,7 +5,7 @@ from ..par import pmap
 from . import C01
 
 ASSUMPTIONS = C01.ASSUMPTIONS + ["np.dot of the objective list with the weights is compared with numpy's own result (the model takes the dot product as a parameter)"]
-MODULES = ["PvModel.Props.C02", "PvModel.Props.T01", "PvModel.Props.T05", "PvModel.Props.R02"]
+MODULES = ["PvModel.Props.C02", "PvModel.Props.T01", "PvModel.Props.T05", "PvModel.Props.R02", "PvModel.Props.T02", "PvModel.Props.T14"]
 
 
 def run(ctx):
